@@ -28,7 +28,7 @@ func genC10(t *rapid.T) C10Case {
 		Custom:   true, Stateful: true, Consts: true, Aliases: true, BoolW: 6,
 		VarW: rapid.SampledFrom([]int{1, 1, 4}).Draw(t, "varw"),
 	}}
-	tree := wrapRoot(g.Expr(rootTy(t), g.Depth))
+	tree := wrapRoot(g.Program(rootTy(t)))
 	fixEmptyLists(tree)
 	u := UniverseFor(t, tree, false)
 	u.Stateless = drawStateless(t)
